@@ -1671,10 +1671,10 @@ class CPF( dfa ):
             ilen[None]		= decide( cls.__name__, state=cls( terminal=True, limit='..length' ),
                         predicate=lambda path=None, data=None, typ=typ, **kwds: data[path].type_id == typ )
 
-        # If we don't recognize the CPF item type, just parse remainder into .input (so we could re-generate)
-        ilen[None]	= urec	= octets( 	'unrecognized',	context=None,
+        # If we don't recognize the CPF item type, just parse its .length octets into .input (so we
+        # could re-generate); never beyond the item, into following items or the enclosing grammar.
+        ilen[None]		= octets( 	'unrecognized',	context=None, repeat='.length',
                                                 terminal=True )
-        urec[True]		= urec
 
         # Each item is collected into '.item__', 'til no more input available, and then moved into
         # place into '.item' (init to [])
